@@ -237,6 +237,11 @@ fn main() {
     // hyphenated identifiers: one alphanumeric identifier each in SemVer 2.0.0, never a separator
     let u_hyph = universe(&["0", "1"], &["rc", "rc-2", "rc-10", "2", "10", "1-0", "-", "rc-", "-1", "a-b", "0-0", "01a", "00x", "007f3a2", "00-1", "0a"], 2, &[""]);
     let s_hyph = check_pairs(&ctx, &u_hyph);
+    // words: identifiers that mean something to some tool (zerv's own labels, PEP 440 / Maven / npm phase names, in three cases,
+    // alone and glued to a number) - to SemVer they are plain alphanumeric identifiers in ASCII order
+    let u_words = universe(&["0", "1"], &["alpha", "beta", "rc", "dev", "post", "epoch", "a", "b", "c", "pre", "preview", "snapshot", "final", "next", "canary", "nightly", "ALPHA", "Beta", "RC", "DEV", "Post", "SNAPSHOT",
+        "alpha1", "rc1", "rc10", "dev0", "post1", "0", "1", "z", "A", "Z"], 2, &[""]);
+    let s_words = check_pairs(&ctx, &u_words);
 
     // dense numeric sweeps: every value 0..=K in one position at a time (core numbers, a numeric identifier in first and
     // second place, the number glued to a label, where the order is textual): all ordered pairs per position
@@ -330,7 +335,7 @@ fn main() {
     // determinism replay on the build universe
     if check_pairs(&ctx, &u_build).digest != s_build.digest { machinery_error("determinism replay diverged"); }
 
-    let all = s_main.clone().merge(s_build.clone()).merge(s_wide.clone()).merge(s_hyph).merge(s_tri.clone()).merge(s_mt.clone()).merge(s_names).merge(s_sweep).merge(s_carry).merge(s_long);
+    let all = s_main.clone().merge(s_build.clone()).merge(s_wide.clone()).merge(s_hyph).merge(s_words).merge(s_tri.clone()).merge(s_mt.clone()).merge(s_names).merge(s_sweep).merge(s_carry).merge(s_long);
     for (t, e) in REJECTED.lock().unwrap().iter() { ctx.violation("universe_member_rejected", format!("{t:?}"), json!({"kind":"member","text":t}), format!("the real parser rejects this spelling of a valid version: {e}")); }
     let mut cov = Coverage::default();
     cov.states = (u_main.len() + u_build.len() + u_wide.len() + u_hyph.len()) as u64 + sweep_states;
